@@ -370,6 +370,125 @@ theorem raw_other_server_nak_or_silence (cfg : Dhcp4Srv.Cfg) (s : State) (now : 
   show (request cfg s now m).2.filter (fits rx.cap) = _
   rw [Props.C12.other_server_nak_or_silence cfg s now m hnz hk hs]
 
+/-! ### 5. C12 (b) against the wire, over raw histories -/
+
+/-- every reply of a message handler fits a request buffer of 507 bytes or more (240 of header, at most 266 of
+    options — a NAK echoing a 255-byte client identifier —, the end option) -/
+theorem replies_fit_roomy {cfg : Dhcp4Srv.Cfg} {s : State} {now : Nat} {rx : Rx} {p : Bytes} {op : Op}
+    (hd : Dhcp4Frame.decode now rx p = .ok (some op)) (hcap : 507 ≤ rx.cap) :
+    (handleMsg cfg s op).2.filter (fits rx.cap) = (handleMsg cfg s op).2 := by
+  apply List.filter_eq_self.2
+  intro r hr
+  obtain ⟨hlen, o, ho, hm⟩ := decode_msgRef hd
+  obtain ⟨_, _, hshape⟩ := handleMsg_reply hm hr
+  have hcl := clientId_msgRef_len rx p o hlen ho
+  have hb : optsLen r.opts ≤ 266 := by
+    rcases hshape with ⟨hn, _, l, a, e⟩ | ⟨_, _, _, srv, e⟩
+    · rw [e]
+      have := (mkReply_wf cfg (msgRef rx p o) r.typ l a hn).2
+      omega
+    · rw [e]
+      exact (nakReply_wf _ srv _ hcl).2
+  simp only [fits, Bool.and_eq_true, decide_eq_true_eq]
+  omega
+
+/-- the observer of the WIRE along a raw history: it sees the decoded message and the replies actually written -/
+def watchRaw (W : Observed) (e : RawEv) (rs : List Reply) : Observed :=
+  match opOf e with
+  | some op => watch W op rs
+  | none => W
+
+/-- runs over raw events together with what an observer of the wire has seen (`Props.C12.runW` for byte strings) -/
+def runRawW (cfg : Dhcp4Srv.Cfg) : State → Observed → List RawEv → List (State × Observed)
+  | s, W, [] => [(s, W)]
+  | s, W, e :: es => (stepRaw cfg s e).flatMap (fun o => runRawW cfg o.1 (watchRaw W e o.2) es)
+
+/-- every payload of the history was received in a buffer of at least 507 bytes (so that no reply is dropped for
+    lack of room: `replies_fit_roomy`; an Ethernet receive buffer has 1472) -/
+def Roomy : RawEv → Bool
+  | .rx _ rx _ => decide (507 ≤ rx.cap)
+  | .env _ => true
+
+theorem watch_nil_none (W : Observed) {op : Op} (h : isMsgOp op = false) : watch W op [] = W := by
+  cases op <;> first | rfl | cases h
+
+/-- a roomy raw history IS the abstract history of its decoded operations, observer included -/
+theorem runRawW_eq (cfg : Dhcp4Srv.Cfg) : ∀ (evs : List RawEv) (s : State) (W : Observed), (∀ e, e ∈ evs → Roomy e = true) →
+    runRawW cfg s W evs = Props.C12.runW cfg s W (opsOf evs)
+  | [], s, W, _ => by simp [runRawW, Props.C12.runW, opsOf]
+  | e :: es, s, W, hro => by
+    have hro' : ∀ x, x ∈ es → Roomy x = true := fun x hx => hro x (List.mem_cons_of_mem _ hx)
+    cases e with
+    | env op =>
+      have hops : opsOf (RawEv.env op :: es) = op :: opsOf es := by simp [opsOf, opOf]
+      rw [hops]
+      simp only [runRawW, Props.C12.runW, stepRaw, watchRaw, opOf]
+      congr 1
+      funext o
+      exact runRawW_eq cfg es o.1 _ hro'
+    | rx now rx p =>
+      have hcap : 507 ≤ rx.cap := by
+        have := hro _ (List.mem_cons_self ..)
+        simpa [Roomy] using this
+      obtain ⟨d, hd⟩ := decode_ok now rx p
+      cases d with
+      | some op =>
+        have hops : opsOf (RawEv.rx now rx p :: es) = op :: opsOf es := by simp [opsOf, opOf_rx_some hd]
+        rw [hops]
+        simp only [runRawW, Props.C12.runW, stepRaw, processRaw_some cfg s hd, step_msg cfg s op (decode_isMsg hd),
+          List.flatMap_cons, List.flatMap_nil, List.append_nil, watchRaw, opOf_rx_some hd, replies_fit_roomy hd hcap]
+        exact runRawW_eq cfg es _ _ hro'
+      | none =>
+        obtain ⟨ret, forged, hp⟩ := processRaw_none cfg s hd
+        have hops : opsOf (RawEv.rx now rx p :: es) = opsOf es := by simp [opsOf, opOf_rx_none hd]
+        rw [hops]
+        simp only [runRawW, stepRaw, hp, List.flatMap_cons, List.flatMap_nil, List.append_nil, watchRaw, opOf_rx_none hd]
+        exact runRawW_eq cfg es s W hro'
+
+/-- `(s, W)` is reached from the empty server by a roomy raw history; `W` is what an observer of the frames written has
+    seen (offers outstanding, addresses last acknowledged) -/
+def ReachRawW (cfg : Dhcp4Srv.Cfg) (s : State) (W : Observed) : Prop :=
+  ∃ evs, (∀ e, e ∈ evs → Roomy e = true) ∧ (s, W) ∈ runRawW cfg (init cfg) ⟨[], []⟩ evs
+
+theorem raw_reachW {cfg : Dhcp4Srv.Cfg} {s : State} {W : Observed} (h : ReachRawW cfg s W) : Props.C12.ReachW cfg s W := by
+  obtain ⟨evs, hro, h⟩ := h
+  rw [runRawW_eq cfg evs _ _ hro] at h
+  exact ⟨opsOf evs, h⟩
+
+/-- **C12 (b) against the wire, over raw histories.**  After any history of arbitrary byte strings (received in
+    buffers of 507 bytes or more) and environment operations, an ACK is written for the next byte string only if these
+    bytes decode to a REQUEST and EITHER it is a selecting REQUEST for exactly the address of an OFFER that was really
+    written to this client identifier in this transaction (xid), not superseded nor consumed, OR the address is the
+    one last acknowledged to this client — "written" / "acknowledged" being what an observer recorded from the frames
+    alone -/
+theorem raw_ack_confirms_observed {cfg : Dhcp4Srv.Cfg} {s : State} {W : Observed} (h : ReachRawW cfg s W) (now : Nat) (rx : Rx)
+    (p : Bytes) (res : Result) (r : Reply) (hp : processRaw cfg s now rx p = .ok res) (hr : r ∈ res.replies)
+    (ht : r.typ = .ack) :
+    ∃ m, Dhcp4Frame.decode now rx p = .ok (some (.request now m)) ∧
+      ((reqKind m = .selecting ∧ (⟨clientId m, m.xid, r.yiaddr⟩ : OfferRec) ∈ W.offers) ∨ (clientId m, r.yiaddr) ∈ W.held) := by
+  have hW := raw_reachW h
+  obtain ⟨ops, hops⟩ := hW
+  obtain ⟨op, m, hd, hm, _, _, _, hr'⟩ := raw_reply_of_step hp hr
+  obtain ⟨_, _, _, o, t, m', _, _, hc, _⟩ := served_payload hd
+  rcases hc with ⟨_, e⟩ | ⟨_, e⟩ | ⟨_, e⟩ | ⟨_, e⟩
+  · subst e
+    exfalso
+    rcases Lemmas.Dhcp4Srv.discover_outcome cfg s now m' with ⟨cur, e⟩ | ⟨s1, ip, _, _, _, e, _⟩
+    · simp only [handleMsg] at hr'; rw [e] at hr'; cases hr'
+    · simp only [handleMsg] at hr'; rw [e] at hr'
+      simp only [List.mem_singleton] at hr'
+      rw [hr'] at ht
+      cases ht
+  · subst e
+    exact ⟨m', hd, Props.C12.ack_confirms_observed ⟨ops, hops⟩ now m' r hr' ht⟩
+  · subst e
+    exfalso
+    rcases Lemmas.Dhcp4Srv.decline_outcome cfg s m' with e | e <;> simp only [handleMsg] at hr' <;> rw [e] at hr' <;> cases hr'
+  · subst e
+    exfalso
+    simp only [handleMsg, release] at hr'
+    cases hr'
+
 /-! ### non-vacuity -/
 
 instance (r : Reply) (tail : List UInt8) : Decidable (TailOK r tail) := by unfold TailOK; infer_instance
@@ -414,6 +533,17 @@ example : readReplies Props.C11.cfgEx (init Props.C11.cfgEx) ⟨0, 67, 300⟩ pD
 set_option maxRecDepth 100000 in
 /-- the reference refuses what `IsValid` refuses: an option running past the end, a payload of 239 bytes -/
 example : Dhcp4Wire.read (pDiscover.take 240 ++ [53, 9, 1, 255]) = none ∧ Dhcp4Wire.read (pDiscover.take 239) = none := by
+  decide
+
+set_option maxRecDepth 100000 in
+/-- non-vacuity of `ReachRawW` / `raw_ack_confirms_observed`: DISCOVER then the selecting REQUEST, as bytes in 1472-byte
+    buffers: after the DISCOVER the observer holds the OFFER of 0.0.0.2 in transaction a0000001, after the REQUEST the
+    lease (the offer is consumed) -/
+example :
+    ((runRawW Props.C11.cfgEx (init Props.C11.cfgEx) ⟨[], []⟩ [.rx 0 rxEx pDiscover]).map (·.2),
+     (runRawW Props.C11.cfgEx (init Props.C11.cfgEx) ⟨[], []⟩ [.rx 0 rxEx pDiscover, .rx 0 rxEx pRequest]).map (·.2),
+     [RawEv.rx 0 rxEx pDiscover, .rx 0 rxEx pRequest].all Roomy)
+    = ([⟨[⟨[0, 2, 3, 4, 5, 1], [0xa0, 0, 0, 1], 2⟩], []⟩], [⟨[], [([0, 2, 3, 4, 5, 1], 2)]⟩], true) := by
   decide
 
 end PV.Props.ComposeDhcpWire
